@@ -12,6 +12,8 @@ import GeoProofs.Lemmas.C06Translate
 import GeoProofs.Lemmas.C06PSpec
 import GeoProofs.Lemmas.C06PScale
 import GeoProofs.Lemmas.C06PHull
+import GeoProofs.Lemmas.C06PPos
+import GeoProofs.Lemmas.C06PHullA
 import Mathlib.Tactic.NormNum
 
 namespace Geo.Proofs.C06
@@ -387,6 +389,24 @@ theorem centroid_translate_needs_weight :
          ⟨[⟨0, 0⟩, ⟨3, 0⟩, ⟨3, 1⟩, ⟨0, 1⟩, ⟨0, 0⟩], []⟩])).map (· + (⟨1, 0⟩ : Pt)) := by
   decide +kernel
 
+/-- [T] `centroid_translate`: the centroid moves with the geometry under translation, for every type
+and nesting, on the domain where no weight can cancel: `len` translation invariant and positive on
+distinct points, no polygon's holes outweigh its shell, rectangles stored min ≤ max (`WF`; both are
+guaranteed for valid geometries / by `Rect::new`). Outside this domain the final weight can be 0
+and the statement fails in the model (`centroid_translate_needs_weight`); the code returns NaN. -/
+theorem centroid_translate (len : Pt → Pt → Rat) (d : Pt)
+    (hlen : ∀ a b, len (a + d) (b + d) = len a b) (hpos : ∀ a b, a ≠ b → 0 < len a b)
+    (g : Geom) (hg : WF g) :
+    centroid len (mapG (· + d) g) = (centroid len g).map (· + d) :=
+  centroid_translate_partial len d hlen g
+    (fun w h => ne_of_gt (final_weight_pos len hpos g hg w h))
+
+example : WF (.collection [.rect ⟨0, 0⟩ ⟨2, 1⟩, .polygon
+    ⟨[⟨0, 0⟩, ⟨4, 0⟩, ⟨4, 4⟩, ⟨0, 4⟩, ⟨0, 0⟩], [[⟨1, 1⟩, ⟨1, 2⟩, ⟨2, 2⟩, ⟨2, 1⟩, ⟨1, 1⟩]]⟩]) := by
+  simp only [WF, WFList, polyWF, and_true]
+  refine ⟨by norm_num, fun _ => ?_⟩
+  norm_num [twiceAreaText, isClosed, windows2, det, sumR, rabs]
+
 /-! ### T1 uniform scaling -/
 
 /-- [T] the accumulator of a geometry scaled by `k ≠ 0` is the scaled accumulator: weights grow by
@@ -487,5 +507,27 @@ example : ConvexCCW [⟨0, 0⟩, ⟨2, 0⟩, ⟨2, 2⟩, ⟨0, 2⟩, ⟨0, 0⟩]
   simp [windows2] at hl hp
   rcases hl with rfl | rfl | rfl | rfl <;> rcases hp with rfl | rfl | rfl | rfl | rfl <;>
     norm_num [crossProd]
+
+/-- [T] `centroid_in_hull`, areal results whose areal members are all convex (`ConvexG`: polygons
+without holes with the ring in convex position, rectangles stored min ≤ max, triangles), alone, in
+multi-polygons or nested in collections together with points and lines of any kind: the centroid is
+an explicit convex combination of the geometry's coordinates, whatever the dimension of the result.
+(Polygons with holes carry negative weights; for them hull membership is only checked by the
+driver.) -/
+theorem centroid_in_hull_convex_members (len : Pt → Pt → Rat) (hpos : ∀ a b, a ≠ b → 0 < len a b)
+    (g : Geom) (hg : ConvexG g) (c : Pt) (h : centroid len g = some c) : InHull (coordsIter g) c := by
+  rw [centroid_eq_spec_of_pos len hpos g] at h
+  exact spec_in_hull_convex len hpos g hg c h
+
+example : ConvexG (.collection [.point ⟨5, 5⟩, .rect ⟨0, 0⟩ ⟨2, 1⟩, .triangle ⟨0, 0⟩ ⟨1, 0⟩ ⟨0, 1⟩,
+    .multiPolygon [⟨[⟨0, 0⟩, ⟨2, 0⟩, ⟨0, 2⟩, ⟨0, 0⟩], []⟩]]) := by
+  simp only [ConvexG, ConvexGList, polyConvex, and_true, true_and]
+  refine ⟨by norm_num, ?_⟩
+  intro p hp
+  simp at hp; subst hp
+  refine ⟨rfl, Or.inl ?_⟩
+  intro l hl q hq
+  simp [windows2] at hl hq
+  rcases hl with rfl | rfl | rfl <;> rcases hq with rfl | rfl | rfl | rfl <;> norm_num [crossProd]
 
 end Geo.Proofs.C06
